@@ -223,6 +223,14 @@ def bypass(prog, chk):
             r = notg(bb, t)
             return r if r is not None else opt(bb, t)
 
+        def call_value(bb, t, name_eq=name_eq, opt=opt, notg=notg):
+            if bb in name_eq:
+                return name_eq[bb]
+            v = notg.call_value(bb, t)
+            return v if v is not None else opt.call_value(bb, t)
+
+        decide.call_value = call_value
+
         touching = {x for (x, t, c) in b.call_sites(lambda c: c.path in PROCESSING or c.path == PE or c.path == EL + "::set_attr" or c.path.endswith("AttrMap::insert") or (c.path.endswith("generate_events") and "OtherElement" in c.path))}
         touching |= {x for x, i, st in b.all_stmts() if st.get("rv", {}).get("k") == "aggr" and st["rv"].get("adt") == "svgdx::events::OutputEvent" and st["rv"].get("variant") in ("Start", "Empty")}
         hit = R.may_reach(b, touching, decide)
